@@ -13,16 +13,16 @@ func init() {
 	run.Register(&run.Check{
 		ID:    "C05",
 		Level: "exploration",
-		Rule: "cases: six world families by index (NetworkPolicy worlds; worlds with canonicalisation-stress port lists and CIDR layouts; ANP/BANP precedence worlds; worlds with Services/Ingresses/Routes; exposure analysis on; focus-workload on), each analysed through ConnlistFromDirPath and, for a third of them, ConnlistFromResourceInfos; " +
+		Rule: "cases: the 212 manifest directories shipped with the repository (inputs only) first, then six generated world families by index (NetworkPolicy worlds; worlds with canonicalisation-stress port lists and CIDR layouts; ANP/BANP precedence worlds; worlds with Services/Ingresses/Routes; exposure analysis on; focus-workload on), each analysed through ConnlistFromDirPath and, for a third of them, ConnlistFromResourceInfos; " +
 			"an invariant monitor walks the returned []Peer2PeerConnection and []Peer: unique (src,dst), no self/ip-ip/empty entries, IP peers single contiguous pairwise-disjoint ranges covering 0.0.0.0-255.255.255.255, All flag <=> three full ranges, per-protocol ranges sorted/disjoint/non-adjacent within 1..65535; " +
 			"non-trivial = the result has an entry with a partial (non-All) connection or at least two IP peers; distinct = world content hash + family",
 		Assumptions:       []string{"inputs are API-admissible", "IP peer ranges are read from Peer.IP() and parsed by our own dotted-quad parser"},
-		NumCases:          func(tier string, _ int64) int { return tierN(tier, 1800, 80000) },
+		NumCases:          func(tier string, _ int64) int { return tierN(tier, 1800+nFixtureCases, 80000+nFixtureCases) },
 		Run:               runC05,
 		MinNonTrivial:     400,
 		MinEffectiveShare: 0.5,
 		RequiredEvents: map[string]int64{"entries_checked": 5000, "ip_peers_checked": 1000, "partial_connections": 1000, "all_connections": 500,
-			"multi_range_connections": 100, "family_canon": 100, "family_anp": 100, "family_ingress": 100, "family_exposure": 100, "family_focus": 100},
+			"multi_range_connections": 100, "family_canon": 100, "family_anp": 100, "family_ingress": 100, "family_exposure": 100, "family_focus": 100, "family_fixture": 100},
 	})
 }
 
@@ -105,9 +105,42 @@ func genFamilyWorld(g *rng.R, fam int) (*world.World, observe.ListOpts, string) 
 	return w, opts, name
 }
 
+const nFixtureCases = 212
+
+func runC05Fixture(c *run.Ctx) {
+	r := c.Res
+	dir := fixtureFor(c.Repo, c.Idx)
+	if dir == "" {
+		r.Discarded = "no fixtures"
+		return
+	}
+	r.Name = "fixture " + dir
+	r.Hash = "fixture/" + dir
+	r.Ev("family_fixture", 1)
+	for _, opts := range []observe.ListOpts{{}, {ViaInfos: true}, {Exposure: true}} {
+		res := observe.List(dir, opts)
+		if res.Panic != "" {
+			r.Violate("c05.total", "c05.total:any:panic", "a result or an error", "panic: "+res.Panic, dir)
+			return
+		}
+		if res.HasErr {
+			r.Ev("tool_errors", 1)
+			continue
+		}
+		checkWellFormed(r, res, true, "c05.wellformed")
+		if len(res.Entries) > 0 {
+			r.Effective, r.NonTrivial = true, true
+		}
+	}
+}
+
 func runC05(c *run.Ctx) {
 	r := c.Res
 	g := c.R("world")
+	if c.Idx < nFixtureCases {
+		runC05Fixture(c)
+		return
+	}
 	fam := c.Idx % 6
 	w, opts, name := genFamilyWorld(g, fam)
 	r.Hash = w.Hash() + "/" + name
